@@ -101,10 +101,11 @@ def fresh_value(ex, base, t):
 class Run:
   """One symbolic execution of a repo function with fresh parameters."""
 
-  def __init__(self, key, closure=None, invariants=None, counters=(), args=None, contracts=None, unroll_limit=40, pre=None):
+  def __init__(self, key, closure=None, invariants=None, counters=(), args=None, contracts=None, unroll_limit=40, pre=None, fast=False):
     self.key = key
     self.info = extract.get_func(key)
     self.ex = Exec()
+    self.ex.fast = fast
     self.ex.unroll_limit = unroll_limit
     self.ex.counter_arrays = set(counters)
     if invariants:
